@@ -26,6 +26,12 @@ ZOO_PSD = ['dense_psd', 'diag', 'constdiag', 'identity', 'toeplitz', 'chol_lower
            'batchrepeat2', 'user_psd', 'nest_sum_kron_root_diag', 'nest_blockdiag_toeplitz', 'nest_sumbatch_kron']
 OWN = ["psdsum_diag_dense", "psdsum3_id_cdiag_toep", "psdsum_nested", "blockdiag_diag", "blockinterleaved_psdsum", "blockdiag_blockinterleaved", "interp_diag_base", "interp_blockdiag_base",
        "interp_width3_dupidx", "blockdiag_interp", "sumbatch_diag", "constmul_blockdiag", "psdsum_identity_root", "kron_identity_dense", "blockdiag_1block", "blockinterleaved_1block"]
+# block structures over a BatchRepeatLinearOperator (the blocks are repeated copies of one covariance: each block still needs its own noise).
+# <block structure>_<how the repeated base is made>; the repeated operator X (dense PSD / Toeplitz / Root, user subclass / kernel for expand) is part of the label
+NEST_BLK = ["sumbatch", "blockdiag", "blockinter"]
+NEST_HOW = {"repall": ("dense", "toep", "root"), "repblk": ("dense", "toep", "root"), "repmix": ("dense", "toep", "root"), "repouter": ("dense", "toep", "root"),
+            "blockdim0": ("dense", "toep", "root"), "reprep": ("dense", "toep", "root"), "expblk": ("user", "kernel"), "blkexp": ("user", "kernel")}
+NEST = [f"{blk}_{how}" for blk in NEST_BLK for how in NEST_HOW]
 
 
 def _setup():
@@ -139,6 +145,69 @@ def _own_cases(torch, zoo):
           "constmul_blockdiag": constmul_blockdiag, "psdsum_identity_root": psdsum_identity_root, "kron_identity_dense": kron_identity_dense,
           "blockdiag_1block": blockdiag_1block, "blockinterleaved_1block": blockinterleaved_1block}
     return {k: zoo.Case(k, "own", f, psd=True) for k, f in fs.items()}
+
+
+def _nest_build(torch, zoo, name, x, g, dt, b, n):
+    """block structure `blk` over a BatchRepeatLinearOperator of X made as `how`; b = batch shape of the block operator; returns (op, dense).
+    The oracle is assembled from the dense X and the documented meaning of repeat/expand (torch.Tensor.repeat/expand on the batch dims) and of the block structure."""
+    from linear_operator import operators as O
+
+    blk, how = name.split("_")
+    K = 3
+    one = (1,) * len(b)
+
+    def X(batch):
+        if x in ("dense", "user"):
+            a = zoo.spd(g, batch, n, dt)
+            return (O.DenseLinearOperator(a) if x == "dense" else zoo._UserOp(a)), a.clone()
+        if x == "toep":
+            c = zoo.rn(g, *batch, n, dtype=dt) * 0.3
+            c[..., 0] = c[..., 0].abs() + n
+            return O.ToeplitzLinearOperator(c), zoo.toeplitz_dense(c)
+        if x == "root":
+            r = zoo.rn(g, *batch, n, max(1, n - 1), dtype=dt)
+            return O.RootLinearOperator(r), r @ r.mT
+        if x == "kernel":  # RBF Gram matrix of n points (PSD); KernelLinearOperator has no _expand_batch of its own
+            pts = zoo.rn(g, *batch, n, 2, dtype=dt) * 1.5
+            ls = zoo.rn(g, *batch, dtype=dt).abs() + 0.7 if batch else torch.tensor(1.3, dtype=dt)
+            return O.KernelLinearOperator(pts, pts, covar_func=zoo._rbf, lengthscale=ls, num_nonbatch_dimensions={"lengthscale": 0}), zoo._rbf(pts, pts, ls)
+        raise KeyError(x)
+
+    def wrap(base, blocks, block_dim=-3):
+        # blocks: (*b, k, n, n) dense blocks in block order
+        if blk == "sumbatch":
+            return O.SumBatchLinearOperator(base, block_dim=block_dim), blocks.sum(-3)
+        if blk == "blockdiag":
+            return O.BlockDiagLinearOperator(base, block_dim=block_dim), zoo.block_diag_dense(blocks)
+        return O.BlockInterleavedLinearOperator(base, block_dim=block_dim), zoo.block_interleaved_dense(blocks)
+
+    if how == "repall":  # unbatched X repeated over every batch dim through the public repeat(): (*b, K) copies
+        xo, xd = X(())
+        return wrap(xo.repeat(*b, K, 1, 1), xd.repeat(*b, K, 1, 1))
+    if how == "repblk":  # X with batch (*b, 1); only the block dim is repeated
+        xo, xd = X((*b, 1))
+        return wrap(O.BatchRepeatLinearOperator(xo, torch.Size((*one, K))), xd.repeat(*one, K, 1, 1))
+    if how == "repmix":  # 2 different blocks, repeated twice along the block dim: blocks a0 a1 a0 a1
+        xo, xd = X((*b, 2))
+        return wrap(O.BatchRepeatLinearOperator(xo, torch.Size((*one, 2))), xd.repeat(*one, 2, 1, 1))
+    if how == "repouter":  # control: 2 different blocks; only the outer batch dims are repeated
+        xo, xd = X((2,))
+        return wrap(O.BatchRepeatLinearOperator(xo, torch.Size((*b, 1))), xd.repeat(*b, 1, 1, 1))
+    if how == "blockdim0":  # the repeated dim is the first batch dim and is declared as the block dim
+        xo, xd = X(b)
+        return wrap(O.BatchRepeatLinearOperator(xo, torch.Size((K, *one))), xd.unsqueeze(-3).repeat(*one, K, 1, 1), block_dim=0)
+    if how == "reprep":  # repeat() of a repeat(): K copies along the block dim, then copies along new outer dims
+        xo, xd = X(())
+        r = xo.repeat(K, 1, 1)
+        return wrap(r.repeat(*b, 1, 1, 1) if b else r, xd.repeat(*b, K, 1, 1))
+    if how == "expblk":  # expand() of an operator whose expand goes through BatchRepeatLinearOperator; the expanded dim is the block dim
+        xo, xd = X((*b, 1) if b else ())
+        return wrap(xo.expand(*b, K, n, n), xd.expand(*b, K, n, n))
+    if how == "blkexp":  # control: expand() of the block structure itself (2 different blocks)
+        xo, xd = X((2,))
+        op, d = wrap(xo, xd)
+        return op.expand(*b, *d.shape[-2:]), d.expand(*b, *d.shape[-2:]).clone()
+    raise KeyError(how)
 
 
 class _Noise:
@@ -264,9 +333,26 @@ def _check_instance(torch, zoo, rec, noise, cname, label, op, dense, k, mode, ba
     rec.check(grp("linear_in_noise"), label, bool((S0.to(torch.float64) - sup).abs().max() <= stol), f"S(z) - sum_e z_e S(e_e) = {float((S0.to(torch.float64) - sup).abs().max()):.3e}")
 
 
-def _instances(torch, zoo, names, tier, own):
+def _instances(torch, zoo, names, tier, own, seed=0):
+    import itertools
+    import zlib
     for nm in names:
-        if nm in own:
+        if nm in NEST:
+            c = zoo.Case(nm, "nest", None, psd=True)
+            if tier == "quick":  # (batch, size) pairs; the number of noise scalars is k * blocks * prod(batch) * n
+                shapes = [((), 1), ((), 2), ((), 3), ((2,), 1), ((2,), 2), ((2,), 3), ((1,), 1), ((1,), 3), ((2, 3), 2)]
+            else:
+                shapes = list(itertools.product([(), (2,), (1,), (2, 3), (1, 2), (3, 1, 2)], [1, 2, 3, 4, 6]))
+            for x, dt, (b, n) in itertools.product(NEST_HOW[nm.split("_")[1]], zoo.DTYPES, shapes):
+                s = zlib.crc32(repr((nm, x, str(dt), b, n, seed)).encode()) % (2 ** 31)
+                lab = f"{nm}|x={x}|{str(dt)[6:]}|b={b}|n={n}"
+                try:
+                    op, d = _nest_build(torch, zoo, nm, x, zoo.gen(s), dt, b, n)
+                except Exception as e:  # noqa
+                    yield lab, c, None, e
+                    continue
+                yield lab, c, op, d
+        elif nm in own:
             c = own[nm]
             batches = zoo.BATCHES_QUICK if tier == "quick" else zoo.BATCHES_QUICK + [(1, 2), (3, 1, 2)]
             sizes = [1, 2, 3, 5] if tier == "quick" else [1, 2, 3, 4, 5, 7]
@@ -292,7 +378,7 @@ def rtc_sampling(case_names, tier):
     own = _own_cases(torch, zoo)
     ks = [1, 3] if tier == "quick" else [1, 2, 4]
     with _Noise(torch) as noise:
-        for label, c, op0, dense in _instances(torch, zoo, case_names, tier, own):
+        for label, c, op0, dense in _instances(torch, zoo, case_names, tier, own, seed):
             if op0 is None:
                 rec.check(f"construct/{c.name}", label, False, f"constructor raised {dense!r}")
                 continue
@@ -301,7 +387,7 @@ def rtc_sampling(case_names, tier):
             for s in dense.shape[:-2]:
                 B *= s
             for k in ks:
-                if tier == "quick" and k > 1 and B * n > 24:
+                if tier == "quick" and k > 1 and B * n > (4 if c.cls == "nest" else 24):
                     continue
                 # (a) default settings: every size is below max_cholesky_size
                 confs = [("default", "chol", lambda: settings.max_cholesky_size(800))]
@@ -309,10 +395,10 @@ def rtc_sampling(case_names, tier):
                     # (b) size above max_cholesky_size -> iterative (Lanczos) root;  (c) same with fast root decomposition off -> direct
                     confs.append(("max_chol=2", "lanczos", lambda: settings.max_cholesky_size(2)))
                     confs.append(("max_chol=2,fast_root_off", "chol", lambda: _both(settings.max_cholesky_size(2), settings.fast_computations(covar_root_decomposition=False))))
-                else:
+                elif c.cls != "nest" or tier != "quick":  # (below max_cholesky_size this is the same Cholesky path as the default: not repeated for the nestings)
                     confs.append(("fast_root_off", "chol", lambda: settings.fast_computations(covar_root_decomposition=False)))
                 for cn, mode, ctx in confs:
-                    if k > 1 and cn != "default" and tier == "quick" and n > 3:
+                    if k > 1 and cn != "default" and tier == "quick" and (n > 3 or c.cls == "nest"):
                         continue
                     op = _fresh(op0)  # fresh caches per configuration
                     with ctx(), settings.ciq_samples(False):
@@ -401,6 +487,9 @@ def rtc_units(tier):
     for i in range(0, len(names), chunk):
         nm = names[i:i + chunk]
         us.append(Unit(f"C18/rtc/sampling[{','.join(nm)}]", "contracts.rtc_C18", "rtc_sampling", (nm, tier), engine="rtc", timeout_s=1200))
+    for i in range(0, len(NEST), chunk):
+        nm = NEST[i:i + chunk]
+        us.append(Unit(f"C18/rtc/sampling_nest[{','.join(nm)}]", "contracts.rtc_C18", "rtc_sampling", (nm, tier), engine="rtc", timeout_s=1200))
     ciq = ["dense_psd", "toeplitz", "kron2", "addeddiag", "sum", "psdsum", "mul", "constmul", "sumbatch", "batchrepeat", "user_psd", "chol_lower", "blockdiag", "diag", "identity", "interp_sym",
            "nest_sum_kron_root_diag", "psdsum_diag_dense", "blockinterleaved_psdsum"]
     for i in range(0, len(ciq), 5):
@@ -423,5 +512,10 @@ RTC_META = {
                 "BlockDiag/BlockInterleaved over Diag/PsdSum/Interpolated/each other/1 block, Interpolated over Diag/BlockDiag/width 3 with duplicate indices, ...) "
                 "x float32/float64 x batch (), (2,), (1,), (2,3) x n in {1,2,4,6} (own: 1,2,3,5) x k in {1,3} x {default, max_cholesky_size below n (Lanczos root), "
                 "the same with fast_computations(covar_root_decomposition=False)}; ciq_samples on for 19 cases (random orthogonal noise basis); "
-                "torch default dtype different from the operator dtype for 12 cases",
+                "torch default dtype different from the operator dtype for 12 cases; "
+                "24 nestings {SumBatch, BlockDiag, BlockInterleaved} over a BatchRepeatLinearOperator made by {repeat() over all batch dims, constructor with "
+                "only the block dim repeated, 2 different blocks repeated twice, only outer dims repeated (control), repeated first dim declared as block_dim=0, "
+                "repeat() of a repeat(), expand() of a user subclass / KernelLinearOperator (expand -> BatchRepeat) along the block dim, expand() of the block "
+                "structure itself (control)} x repeated operator {dense PSD, Toeplitz, Root} x float32/float64 x (batch, n) in {() x 1,2,3; (2,) x 1,2,3; "
+                "(1,) x 1,3; (2,3) x 2} x the same settings (k = 3 only for prod(batch) n <= 4 at default settings)",
 }
